@@ -45,7 +45,7 @@ type result struct {
 
 func scenarios() []e3.Scenario {
 	var out []e3.Scenario
-	for _, kind := range []string{"dup-reply", "reply-then-reject", "reply-vs-t3"} {
+	for _, kind := range []string{"dup-reply", "reply-then-reject", "reply-vs-t3", "stray-then-reply", "stray-reply-stray", "stray-stray-reply"} {
 		kind := kind
 		var a, b result
 		var aSys, bSys uint32
@@ -81,6 +81,20 @@ func scenarios() []e3.Scenario {
 					case "reply-then-reject":
 						rej := peer.Ctrl(peer.SRejectReq, f.Session, 0, 4, f.Sys).Bytes()
 						_, _ = pc.Write(append(append([]byte{}, rep...), rej...))
+					case "stray-then-reply", "stray-reply-stray", "stray-stray-reply":
+						// a control response that (wrongly) carries A's system bytes, and A's genuine reply,
+						// all in one segment: the stray must neither complete A nor cost A its reply
+						stray := peer.Ctrl(peer.SLinktestRsp, 0xFFFF, 0, 0, f.Sys).Bytes()
+						var seg []byte
+						switch kind {
+						case "stray-then-reply":
+							seg = append(append(seg, stray...), rep...)
+						case "stray-reply-stray":
+							seg = append(append(append(seg, stray...), rep...), stray...)
+						case "stray-stray-reply":
+							seg = append(append(append(seg, stray...), stray...), rep...)
+						}
+						_, _ = pc.Write(seg)
 					case "reply-vs-t3":
 						vsched.Tick() // T3 of transaction A may land before the reply
 						_, _ = pc.Write(rep)
@@ -117,6 +131,29 @@ func scenarios() []e3.Scenario {
 					var rj *hsms.RejectError
 					if !errors.As(a.err, &rj) {
 						e.Violate("own-reply-lost:A", "send A was answered by the peer but returned %v", a.err)
+					}
+				}
+				// the peer's genuine reply to A is one inbound data message: it reaches exactly one
+				// recipient — the waiting sender, or else the handlers — whatever else carries A's
+				// system bytes in the same segment (a duplicate may be discarded, the reply may not)
+				if aSys != 0 {
+					_, delivered, _ := e.W.Snapshot()
+					toHandlers := 0
+					for _, d := range delivered {
+						if d.Msg.Stream() == 1 && d.Msg.Function() == 2 && hsms.FromSystemBytes(d.Msg.SystemBytes()) == aSys {
+							toHandlers++
+						}
+					}
+					toSender := 0
+					if a.err == nil && a.reply != nil {
+						toSender = 1
+					}
+					copies := 1
+					if kind == "dup-reply" {
+						copies = 2
+					}
+					if got := toSender + toHandlers; got == 0 || got > copies {
+						e.Violate("reply-recipients:A", "the peer sent %d copy(ies) of the reply to A; the sender got %d and the handlers %d (send A returned err=%v): the reply must reach exactly one recipient", copies, toSender, toHandlers, a.err)
 					}
 				}
 				if bSys != 0 || b.err != nil || b.reply != nil {
